@@ -53,6 +53,9 @@ type rw struct {
 	tmp     int
 	imports map[string]string // local name -> import path
 	keep    map[string]bool   // import paths whose selectors stay untouched in this package
+	// mapsOnly: rewrite nothing but `range` over maps, whose iteration order becomes the
+	// harness's decision (vrand.MapKeys) - for sequential harnesses
+	mapsOnly bool
 }
 
 func (r *rw) shim(pkg string) *ast.Ident {
@@ -79,6 +82,60 @@ func (r *rw) isChan(e ast.Expr) bool {
 	return ok
 }
 
+func (r *rw) isMap(e ast.Expr) bool {
+	tv, ok := r.info.Types[e]
+	if !ok || tv.Type == nil {
+		return false
+	}
+	_, ok = tv.Type.Underlying().(*types.Map)
+	return ok
+}
+
+// simple: an expression that can be evaluated repeatedly without side effects.
+func simple(e ast.Expr) bool {
+	switch v := e.(type) {
+	case *ast.Ident:
+		return true
+	case *ast.SelectorExpr:
+		return simple(v.X)
+	case *ast.StarExpr:
+		return simple(v.X)
+	case *ast.ParenExpr:
+		return simple(v.X)
+	}
+	return false
+}
+
+// for k, v := range m { B }  =>
+// for _, _k := range vrand.MapKeys(m) { _v, _ok := m[_k]; if !_ok { continue }; k := _k; v := _v; B }
+// (keys are snapshotted in the order the harness decides; an entry deleted meanwhile is skipped,
+// as the language allows).  Ranges over anything but a plain variable/field are left alone.
+func (r *rw) rangeMap(n *ast.RangeStmt) ast.Stmt {
+	if !simple(n.X) {
+		return nil
+	}
+	blank := func(e ast.Expr) bool {
+		id, ok := e.(*ast.Ident)
+		return e == nil || (ok && id.Name == "_")
+	}
+	kt, vt, okt := r.fresh("k"), r.fresh("v"), r.fresh("ok")
+	var pre []ast.Stmt
+	if !blank(n.Value) {
+		pre = append(pre, define([]ast.Expr{vt, okt}, &ast.IndexExpr{X: n.X, Index: kt}),
+			&ast.IfStmt{Cond: &ast.UnaryExpr{Op: token.NOT, X: okt}, Body: &ast.BlockStmt{List: []ast.Stmt{&ast.BranchStmt{Tok: token.CONTINUE}}}})
+	}
+	if !blank(n.Key) {
+		pre = append(pre, &ast.AssignStmt{Lhs: []ast.Expr{n.Key}, Tok: n.Tok, Rhs: []ast.Expr{kt}})
+	} else {
+		pre = append(pre, &ast.AssignStmt{Lhs: []ast.Expr{ast.NewIdent("_")}, Tok: token.ASSIGN, Rhs: []ast.Expr{kt}})
+	}
+	if !blank(n.Value) {
+		pre = append(pre, &ast.AssignStmt{Lhs: []ast.Expr{n.Value}, Tok: n.Tok, Rhs: []ast.Expr{vt}})
+	}
+	return &ast.RangeStmt{Key: ast.NewIdent("_"), Value: kt, Tok: token.DEFINE, X: r.call("vrand", "MapKeys", n.X),
+		Body: &ast.BlockStmt{List: append(pre, n.Body.List...)}}
+}
+
 func define(lhs []ast.Expr, rhs ...ast.Expr) *ast.AssignStmt {
 	return &ast.AssignStmt{Lhs: lhs, Tok: token.DEFINE, Rhs: rhs}
 }
@@ -98,6 +155,9 @@ func (r *rw) rewriteFile() {
 
 // pre handles constructs whose children must not be visited in their original form.
 func (r *rw) pre(c *astutil.Cursor) bool {
+	if r.mapsOnly {
+		return true
+	}
 	switch n := c.Node().(type) {
 	case *ast.SelectStmt:
 		if r.keep["select-default"] {
@@ -142,6 +202,14 @@ func (r *rw) pre(c *astutil.Cursor) bool {
 }
 
 func (r *rw) post(c *astutil.Cursor) bool {
+	if r.mapsOnly {
+		if n, ok := c.Node().(*ast.RangeStmt); ok && r.isMap(n.X) {
+			if st := r.rangeMap(n); st != nil {
+				c.Replace(st)
+			}
+		}
+		return true
+	}
 	switch n := c.Node().(type) {
 	case *ast.GoStmt:
 		c.Replace(r.goStmt(n))
@@ -334,6 +402,7 @@ func main() {
 	out := flag.String("out", "", "output directory")
 	dir := flag.String("dir", "/verif/mc", "module directory from which packages are resolved")
 	keepFlag := flag.String("keep", "golang.org/x/time/rate=sync,golang.org/x/time/rate=select-default", "comma-separated pkg=importpath pairs: selectors of importpath are not redirected inside pkg")
+	mapsOnly := flag.Bool("maps", false, "rewrite only range-over-map statements (iteration order owned by the harness)")
 	flag.Parse()
 	keeps := map[string]map[string]bool{}
 	for _, kv := range strings.Split(*keepFlag, ",") {
@@ -366,7 +435,7 @@ func main() {
 			if strings.HasSuffix(path, "_test.go") {
 				continue
 			}
-			r := &rw{fset: p.Fset, info: p.TypesInfo, file: f, used: map[string]bool{}, keep: keeps[p.PkgPath]}
+			r := &rw{fset: p.Fset, info: p.TypesInfo, file: f, used: map[string]bool{}, keep: keeps[p.PkgPath], mapsOnly: *mapsOnly}
 			r.rewriteFile()
 			if !r.changed {
 				continue
